@@ -30,7 +30,9 @@ Step(ev) ==
     \* whether the kernel took the connection is the environment's answer (recorded)
     [] ev.a = "conn"       -> IF ev.obs.ret = "ok" /\ (IF ev.arg.l = 0 THEN bnd = 1 ELSE ev.arg.l \in Listeners)
                               THEN PConn(ev.arg.l) ELSE Quiet("conn")
-    [] ev.a = "accept"     -> IF bnd = 1 THEN Accept ELSE Quiet("accept")
+    [] ev.a = "accept"     -> IF bnd = 1 THEN Accept(0) ELSE Quiet("accept")
+    [] ev.a = "unbind"     -> Unbind
+    [] ev.a = "keepread"   -> IF Known(ev.arg.i) /\ ik[ev.arg.i] \in {"c", "a", "n"} THEN KeepRead(ev.arg.i) ELSE Quiet("keepread")
     [] ev.a = "send"       -> IF Known(ev.arg.i) /\ Data(ik[ev.arg.i]) /\ ~eof[ev.arg.i] /\ ev.obs.ret = "ok"
                               THEN SendAs(ev.arg.i, ev.arg.data) ELSE Quiet("send")
     [] ev.a = "pclose"     -> IF Known(ev.arg.i) /\ Data(ik[ev.arg.i]) /\ ~eof[ev.arg.i] /\ wire[ev.arg.i] = <<>>
